@@ -4,7 +4,6 @@ from . import tcp as T, kernel as K, elements
 def check(ctx):
     T.run_tables(ctx, 'C19', [('Timer', '__init__'), ('Timer', 'run'), ('Timer', 'wait'), ('Timer', 'stop'),
                               ('Timer', 'restart'), ('TCPPacketGenerator', 'timeout_callback')])
-    K.run_tables(ctx, 'C19', [('Interruption', '__init__'), ('Interruption', '_interrupt'), ('Process', 'is_alive')])
     elements.timer_args_shape(ctx, 'C19')
     elements.timer_no_self_interrupt(ctx, 'C19')
     elements.interrupt_guards_imply_precondition(ctx, 'C19')
